@@ -22,7 +22,7 @@ META = {
     "deciding": [
         "C02.shape",
         "C02.value.const",
-        "C02.value.array",
+        "C02.value.array", "C02.value.own_copy", "C02.component.own_copy",
         "C02.value.callable",
         "C02.dict.value",
         "C02.source.value",
@@ -275,6 +275,18 @@ def observe(ctx, f, spec, info, n_points=10):
                       and np.array_equal(comp.array[..., 0], A[..., k])
                       and comp.mesh == f.mesh,
                       op="__getattr__", label=lab, column=k, labels=labels, **info)
+    if labels and nvdim > 1:
+        # history: a component that is modified afterwards is a field of its own
+        k = int(rng.integers(0, nvdim))
+        comp = getattr(f, labels[k])
+        with np.errstate(all="ignore"):
+            if comp.array.dtype == bool:
+                np.logical_not(comp.array, out=comp.array)
+            else:
+                comp.array[...] = comp.array * 2 + 1
+        ctx.check("C02.component.own_copy", np.array_equal(f.array, A, equal_nan=True),
+                  note="writing into an extracted component changed the parent field",
+                  label=labels[k], shares_memory=bool(np.shares_memory(f.array, comp.array)), **info)
     if labels:
         bogus = "no_such_component"
         ctx.expect_raises("C02.component.unknown_label_rejected", getattr, f, bogus)
@@ -318,6 +330,18 @@ def basic(ctx):
     okc = _matches(f.array, piece.exp, piece.tol)
     ctx.check("C02.value." + skind, bool(np.all(okc)),
               **({} if np.all(okc) else _first_bad(okc, f.array, piece.exp)), **info)
+    if isinstance(piece.value, np.ndarray):
+        # history: the caller goes on using (overwriting) the array it handed over; the
+        # field holds what was specified at the time, not a window onto the caller's memory
+        before = np.array(f.array)
+        with np.errstate(all="ignore"):
+            if piece.value.dtype == bool:
+                np.logical_not(piece.value, out=piece.value)
+            else:
+                piece.value[...] = piece.value * 2 + 1
+        ctx.check("C02.value.own_copy", np.array_equal(f.array, before, equal_nan=True),
+                  note="overwriting the caller's array afterwards changed the field",
+                  shares_memory=bool(np.shares_memory(f.array, piece.value)), **info)
     observe(ctx, f, spec, info)
 
 
